@@ -290,6 +290,12 @@ pub enum Op {
     /// `ArrayOfTables::extend` with three new tables
     AotExtend3(Path),
     AotRemove(Path, usize),
+    /// `ArrayOfTables::retain` keeping the elements at even positions / `clear`
+    AotRetainEven(Path),
+    AotClear(Path),
+    /// `Table::retain` / `InlineTable::retain` keeping the entries at even positions; `clear` through `dyn TableLike`
+    TabRetainEven(Path),
+    TabClear(Path),
     IntoInline(Path),
     IntoTable(Path),
     MakeValue(Path),
@@ -387,6 +393,8 @@ fn enumerate_ops(root: &N) -> Vec<Op> {
                 }
                 if !e.is_empty() {
                     ops.push(Op::Fmt(p.clone()));
+                    ops.push(Op::TabRetainEven(p.clone()));
+                    ops.push(Op::TabClear(p.clone()));
                 }
                 if !p.is_empty() {
                     match &n.k {
@@ -436,6 +444,10 @@ fn enumerate_ops(root: &N) -> Vec<Op> {
                 ops.push(Op::AotExtend3(p.clone()));
                 for i in 0..a.len() {
                     ops.push(Op::AotRemove(p.clone(), i));
+                }
+                if !a.is_empty() {
+                    ops.push(Op::AotRetainEven(p.clone()));
+                    ops.push(Op::AotClear(p.clone()));
                 }
                 if a.iter().all(all_values_tab) {
                     ops.push(Op::MakeValue(p.clone()));
@@ -616,6 +628,37 @@ fn apply_model(root: &mut N, op: &Op) -> BTreeSet<String> {
             sub(&a[*i], &mut touched);
             a.remove(*i);
         }
+        Op::AotRetainEven(p) | Op::AotClear(p) => {
+            let t = get_mut(root, p);
+            let K::Aot(a) = &mut t.k else { panic!() };
+            let keep_even = matches!(op, Op::AotRetainEven(_));
+            let old = std::mem::take(a);
+            for (i, x) in old.into_iter().enumerate() {
+                if keep_even && i % 2 == 0 {
+                    a.push(x);
+                } else {
+                    sub(&x, &mut touched);
+                }
+            }
+        }
+        Op::TabRetainEven(p) | Op::TabClear(p) => {
+            let t = get_mut(root, p);
+            if matches!(t.k, K::Inl(_)) {
+                if let Some(m) = &t.mark {
+                    touched.insert(m.clone());
+                }
+            }
+            let (K::Inl(e) | K::Tab(e, _)) = &mut t.k else { panic!() };
+            let keep_even = matches!(op, Op::TabRetainEven(_));
+            let old = std::mem::take(e);
+            for (i, (k, x)) in old.into_iter().enumerate() {
+                if keep_even && i % 2 == 0 {
+                    e.push((k, x));
+                } else {
+                    sub(&x, &mut touched);
+                }
+            }
+        }
         Op::IntoInline(p) | Op::MakeValue(p) => {
             let t = get_mut(root, p);
             sub(t, &mut touched);
@@ -638,7 +681,7 @@ fn apply_model(root: &mut N, op: &Op) -> BTreeSet<String> {
     }
     // an edit inside an inline table or array rewrites the line(s) of the enclosing value: those markers may change
     let p: &Path = match op {
-        Op::Insert(p, ..) | Op::EntryOrInsert(p, ..) | Op::IndexAssign(p, ..) | Op::Remove(p, ..) | Op::SortValues(p) | Op::Fmt(p) | Op::ArrPush(p, ..) | Op::ArrInsert(p, ..) | Op::ArrReplace(p, ..) | Op::ArrRemove(p, ..) | Op::ArrRetainEven(p) | Op::ArrRetainNone(p) | Op::ArrClear(p) | Op::AotPush(p) | Op::AotExtend3(p) | Op::AotRemove(p, ..) | Op::IntoInline(p) | Op::IntoTable(p) | Op::MakeValue(p) | Op::IntoAot(p) => p,
+        Op::Insert(p, ..) | Op::EntryOrInsert(p, ..) | Op::IndexAssign(p, ..) | Op::Remove(p, ..) | Op::SortValues(p) | Op::Fmt(p) | Op::ArrPush(p, ..) | Op::ArrInsert(p, ..) | Op::ArrReplace(p, ..) | Op::ArrRemove(p, ..) | Op::ArrRetainEven(p) | Op::ArrRetainNone(p) | Op::ArrClear(p) | Op::AotPush(p) | Op::AotExtend3(p) | Op::AotRemove(p, ..) | Op::AotRetainEven(p) | Op::AotClear(p) | Op::TabRetainEven(p) | Op::TabClear(p) | Op::IntoInline(p) | Op::IntoTable(p) | Op::MakeValue(p) | Op::IntoAot(p) => p,
     };
     let mut cur: &N = before;
     let mut chain: Vec<&N> = vec![cur];
@@ -734,6 +777,30 @@ fn apply_real(doc: &mut DocumentMut, op: &Op) {
             nav(doc, p).as_array_of_tables_mut().expect("aot").extend(tabs);
         }
         Op::AotRemove(p, i) => nav(doc, p).as_array_of_tables_mut().expect("aot").remove(*i),
+        Op::AotRetainEven(p) => {
+            let mut i = 0;
+            nav(doc, p).as_array_of_tables_mut().expect("aot").retain(|_| {
+                i += 1;
+                (i - 1) % 2 == 0
+            });
+        }
+        Op::AotClear(p) => nav(doc, p).as_array_of_tables_mut().expect("aot").clear(),
+        Op::TabRetainEven(p) => {
+            let mut i = 0;
+            let it = nav(doc, p);
+            if let Some(t) = it.as_table_mut() {
+                t.retain(|_, _| {
+                    i += 1;
+                    (i - 1) % 2 == 0
+                });
+            } else {
+                it.as_inline_table_mut().expect("inline table").retain(|_, _| {
+                    i += 1;
+                    (i - 1) % 2 == 0
+                });
+            }
+        }
+        Op::TabClear(p) => nav(doc, p).as_table_like_mut().expect("table-like").clear(),
         Op::IntoInline(p) => {
             let it = nav(doc, p);
             let t = std::mem::take(it).into_table().expect("table");
